@@ -68,6 +68,7 @@ type variant struct {
 	perW     int  // writes per writer
 	cancel   bool // writer 0's context is cancelled by another thread while its write is in flight
 	sameKey  bool // all writers write the same key (C02: the leader's state must follow the log order)
+	fence    bool // a NewTerm(term+1) request races with the writers (acks may arrive after the tracker is closed)
 }
 
 type wres struct {
@@ -146,9 +147,43 @@ func body(v variant) func(s *vsched.Sched) {
 				}
 			})
 		}
+		if v.fence {
+			vsched.Go(func() {
+				_, _ = lc.NewTerm(&proto.NewTermRequest{Namespace: "ns", Shard: 1, Term: 2, Options: &proto.NewTermOptions{EnableNotifications: true}})
+			})
+		}
 		s.Settle()
 		s.Explore(false)
 		monitor = nil
+		if v.fence {
+			// writes may be refused; what must hold is that whatever the node applied is the fold of
+			// its log up to the commit offset its database records, one offset at a time
+			w := server.VerifLeaderWal(lc)
+			db := server.VerifLeaderDB(lc)
+			c, _ := db.ReadCommitOffset()
+			var entries []*proto.LogEntry
+			if rd, err := w.NewReader(-1); err == nil {
+				for rd.HasNext() {
+					e, err := rd.ReadNext()
+					if err != nil {
+						break
+					}
+					entries = append(entries, e)
+				}
+				_ = rd.Close()
+			}
+			if d := oxc.FoldDiffers("ns", 1, db, entries, c); d != "" {
+				fail(s, "leader-state-not-fold-of-log", fmt.Sprintf("database of a leader fenced while writes were in flight (stored commit offset %d) differs from applying log entries 0..%d in order:\n %s", c, c, d))
+			}
+			for _, seq := range kvf.CommitSequences() {
+				if msg := oxc.CheckSequential(seq, -1); msg != "" {
+					fail(s, "apply-out-of-order", msg)
+				}
+			}
+			s.Data = fmt.Sprintf("fenced|db-commit=%d entries=%d", c, len(entries))
+			_ = lc.Close()
+			return
+		}
 		// ---- oracle at quiescence
 		var outcome []string
 		okCount := 0
@@ -341,6 +376,14 @@ func followerBody(n int, commitAhead int64, syncData bool) func(s *vsched.Sched)
 	}
 }
 
+func coarse(k vsched.Kind, obj uint64) bool {
+	switch k {
+	case vsched.KLock, vsched.KRLock, vsched.KAtomic, vsched.KWait, vsched.KCond, vsched.KClose:
+		return false
+	}
+	return true
+}
+
 var monitor func(s *vsched.Sched)
 
 func cfg() vsched.Config {
@@ -363,25 +406,27 @@ func scenarios(tier string) []sched.Scenario {
 		}{v, dev})
 	}
 	if tier == "thorough" {
-		add(variant{"rf3-2writers-sync", 2, 3, true, false, 0, 1, false, false}, 3)
-		add(variant{"rf3-2writers-nosync", 2, 3, false, false, 0, 1, false, false}, 3)
-		add(variant{"rf3-1live-follower-sync", 2, 3, true, false, 1, 1, false, false}, 3)
-		add(variant{"rf3-dupacks-sync", 2, 3, true, true, 0, 1, false, false}, 2)
-		add(variant{"rf5-2writers-sync", 2, 5, true, false, 0, 1, false, false}, 2)
-		add(variant{"rf5-2mute-sync", 2, 5, true, false, 2, 1, false, false}, 2)
-		add(variant{"rf3-3writers-sync", 3, 3, true, false, 0, 1, false, false}, 2)
-		add(variant{"rf3-2x2writes-sync", 2, 3, true, false, 0, 2, false, false}, 2)
+		add(variant{name: "rf3-2writers-sync", writers: 2, rf: 3, syncData: true, perW: 1}, 3)
+		add(variant{name: "rf3-2writers-nosync", writers: 2, rf: 3, perW: 1}, 3)
+		add(variant{name: "rf3-1live-follower-sync", writers: 2, rf: 3, syncData: true, mute: 1, perW: 1}, 3)
+		add(variant{name: "rf3-dupacks-sync", writers: 2, rf: 3, syncData: true, dup: true, perW: 1}, 2)
+		add(variant{name: "rf5-2writers-sync", writers: 2, rf: 5, syncData: true, perW: 1}, 2)
+		add(variant{name: "rf5-2mute-sync", writers: 2, rf: 5, syncData: true, mute: 2, perW: 1}, 2)
+		add(variant{name: "rf3-3writers-sync", writers: 3, rf: 3, syncData: true, perW: 1}, 2)
+		add(variant{name: "rf3-2x2writes-sync", writers: 2, rf: 3, syncData: true, perW: 2}, 2)
 		add(variant{name: "rf3-2writers-one-cancelled", writers: 2, rf: 3, syncData: true, perW: 1, cancel: true}, 3)
 		add(variant{name: "rf3-2writers-same-key", writers: 2, rf: 3, syncData: true, perW: 1, sameKey: true}, 3)
 		add(variant{name: "rf3-3writers-same-key", writers: 3, rf: 3, syncData: true, perW: 1, sameKey: true}, 2)
+		add(variant{name: "rf3-2writers-fenced", writers: 2, rf: 3, syncData: true, perW: 1, fence: true}, 3)
 	} else {
-		add(variant{"rf3-2writers-sync", 2, 3, true, false, 0, 1, false, false}, 2)
-		add(variant{"rf3-2writers-nosync", 2, 3, false, false, 0, 1, false, false}, 2)
-		add(variant{"rf3-1live-follower-sync", 2, 3, true, false, 1, 1, false, false}, 2)
-		add(variant{"rf5-2mute-sync", 2, 5, true, false, 2, 1, false, false}, 1)
-		add(variant{"rf3-3writers-sync", 3, 3, true, false, 0, 1, false, false}, 1)
+		add(variant{name: "rf3-2writers-sync", writers: 2, rf: 3, syncData: true, perW: 1}, 2)
+		add(variant{name: "rf3-2writers-nosync", writers: 2, rf: 3, perW: 1}, 2)
+		add(variant{name: "rf3-1live-follower-sync", writers: 2, rf: 3, syncData: true, mute: 1, perW: 1}, 2)
+		add(variant{name: "rf5-2mute-sync", writers: 2, rf: 5, syncData: true, mute: 2, perW: 1}, 1)
+		add(variant{name: "rf3-3writers-sync", writers: 3, rf: 3, syncData: true, perW: 1}, 1)
 		add(variant{name: "rf3-2writers-one-cancelled", writers: 2, rf: 3, syncData: true, perW: 1, cancel: true}, 2)
 		add(variant{name: "rf3-2writers-same-key", writers: 2, rf: 3, syncData: true, perW: 1, sameKey: true}, 2)
+		add(variant{name: "rf3-2writers-fenced", writers: 2, rf: 3, syncData: true, perW: 1, fence: true}, 2)
 	}
 	if onlySameKey {
 		var f []struct {
@@ -397,7 +442,13 @@ func scenarios(tier string) []sched.Scenario {
 	}
 	var out []sched.Scenario
 	for _, x := range vs {
-		out = append(out, sched.Scenario{Name: x.v.name, Cfg: cfg(), MaxDev: x.dev, Body: body(x.v)})
+		c := cfg()
+		if x.v.fence {
+			// the fencing race is between whole callbacks, acks and RPCs: preempt at channel / stream
+			// operations, selects and thread starts only (as the cluster harness does), which buys depth
+			c.Filter = coarse
+		}
+		out = append(out, sched.Scenario{Name: x.v.name, Cfg: c, MaxDev: x.dev, Body: body(x.v)})
 	}
 	if !withFollower {
 		return out
